@@ -20,6 +20,17 @@ SHARERS = ("sext", "rorh", "rolh", "ror", "rol", "pow", "simpb")     # APIs that
 # regression corpus: minimal inputs of the defects found so far (run first, every tier)
 CORPUS = [
     # (name, script, complexity, valuation)
+    ("setpart-straddle", [["reg", "a", 16], ["reg", "b", 16], ["rawcomp", 2], ["reg", "v", 16], ["setpart", 8, 24]], 0,
+     [["a", 16, 0x1234], ["b", 16, 0x5678], ["v", 16, 0xffff]]),
+    ("setpart-hop", [["reg", "a", 16], ["reg", "k", 4], ["reg", "b", 12], ["rawcomp", 3], ["reg", "v", 16], ["setpart", 10, 26]], 0,
+     [["a", 16, 0x1234], ["k", 4, 5], ["b", 12, 0x678], ["v", 16, 0xffff]]),
+    ("setpart-noncomp", [["reg", "a", 32], ["reg", "v", 16], ["setpart", 8, 24], ["reg", "u", 8], ["setpart", 4, 12]], 0,
+     [["a", 32, 0x12345678], ["v", 16, 0xffff], ["u", 8, 0]]),
+    ("mem-slice-unaligned-byte", [["mem", "p_x", 32, 0, 1, 32], ["slice", 4, 12]], 0, [["p_x", 32, 0x1000]]),
+    ("mem-slice-unaligned-be", [["mem", "p_x", 32, 4, -1, 64], ["slice", 4, 28]], 0, [["p_x", 64, 0x1000]]),
+    ("mem-and-mask", [["mem", "p_x", 32, 0, 1, 32], ["cst", 0xff0, 32], ["and"]], 0, [["p_x", 32, 0x1000]]),
+    ("mem-in-comp", [["mem", "p_x", 32, 0, 1, 32], ["slice", 12, 28], ["reg", "a", 16], ["compose", 2], ["slice", 1, 9]], 0,
+     [["p_x", 32, 0x1000], ["a", 16, 3]]),
     ("raw-shl-over-bitslice", [["reg", "a", 32], ["cst", 40, 32], ["rawop", "shl"]], 0, [["a", 32, 5]]),
     ("raw-shr-over-bitslice", [["reg", "h", 16], ["cst", 200, 8], ["rawop", "shr"]], 0, [["h", 16, 0xffff]]),
     ("raw-shl-at-width", [["reg", "a", 32], ["cst", 32, 32], ["rawop", "shl"]], 0, [["a", 32, 5]]),
@@ -149,7 +160,7 @@ def has_vec(d):
 # shrinking of failing scripts (for narrow signatures and readable replay files)
 # ---------------------------------------------------------------------------------------
 
-ARITY = {"cst": 0, "reg": 0, "ext": 0, "top": 0, "signed": 1, "unsigned": 1, "neg": 1, "not": 1, "slice": 1, "bit": 1,
+ARITY = {"cst": 0, "reg": 0, "ext": 0, "top": 0, "mem": 0, "signed": 1, "unsigned": 1, "neg": 1, "not": 1, "slice": 1, "bit": 1,
          "zext": 1, "sext": 1, "simp": 1, "simpb": 1, "tst": 3, "rawuop": 1, "rawslc": 1}
 
 
@@ -250,6 +261,8 @@ def shape(script):
             out.append("c" + c + ("s" if v < 0 else ""))
         elif o in ("reg", "ext"):
             out.append("r")
+        elif o == "mem":
+            out.append("m" + ("be" if ins[4] == -1 else ""))
         elif o in ("slice", "bit", "zext", "sext", "compose", "rawslc", "rawcomp"):
             out.append(o)
         elif o in ("rawop", "rawuop"):
@@ -393,7 +406,15 @@ def run_check(prop, tier):
         if want_c01:
             return real[0] == "ok" and w is not None and real[3] != w
         if real[0] == "raise":
-            return True
+            # C01 reports a raise where the reference defines a value; where it defines none (memory leaves …) the
+            # disagreement stays here
+            for val in vals[:3]:
+                try:
+                    if F.evaluate(script, decl, valmap(val)) is not None:
+                        return True
+                except Exception:
+                    pass
+            return False
         return False
 
     compq = []   # (dump, script, action, cx) for the K-tie
@@ -435,6 +456,9 @@ def run_check(prop, tier):
             if dirty:
                 ck.count("real.global-bit-singleton-mutated")
             v = judge(script, cx, a, real, decl, m, vals, w)
+            if not want_c01:
+                for dmid in R.last_mid:
+                    compq.append((dmid, script, ["setpart-then-" + a[0]], cx))
             if real[0] == "ok" and not want_c01:
                 if not want_c01:
                     compq.append((real[1], script, a, cx))
@@ -551,6 +575,7 @@ def run_check(prop, tier):
         "string-hash collisions of CPython are not modelled (exp.__eq__ compares hash(str)+size)",
         "object identity is not modelled: where amoco itself places one object at two positions (extend, rol, bitslice) results are compared up to the sf flags of inner nodes (counted as tie.drift); likewise, under an environment that binds a register to a compound expression, eval hands out the stored objects (a C09 concern) and results are compared up to sf flags",
         "raw (constructor-built, unsimplified) nodes are simplified in place by the real code, also as a side effect of comparisons inside simplify; when such an object is held at two places the real result can be more simplified than the functional model's: on scripts with raw nodes a structural difference with equal width and passing value oracles is counted as tie.raw-inplace",
+        "memory leaves mem(reg+disp, size, endian): memory stays symbolic, scripts containing them are judged on widths only (no value oracle); simplify / slicing of them is tied by full-dump correspondence, eval (mapper memory reads: C02/C09) by the width oracle only",
         "vec/vecw results (widening) are compared by outcome class and size only (C19's fragment)",
         "shift amounts between 2^16 and 2^60 are not generated: the real code would compute `int << n` literally",
         "signed `/` and `%`: the oracle accepts floor and truncate; sign-dependent operators are judged only when every leaf below both operands carries the declared signedness",
